@@ -19,6 +19,8 @@ RULES = {
     "C05-O1": "ArrayAttribute rejects key iff key < 0 or key >= n_elem, and the check dominates every access to the storage",
     "C05-G1": "every method that extends element storage calls attr._expand(k) for every attribute in the same block, k = number of appended elements, through resolvable members",
     "C05-A1": "the stored default is handed out for an absent key only if it cannot be mutable (elemsize == 1) or through a copy",
+    "C05-A2": "the sparse storage keeps a fresh object per entry: a vector written into the dictionary never shares storage with the "
+              "value the caller passed (nor, through it, with another entry)",
     "C05-S1": "sparse and dense __setitem__ have the same ordered (guard, exception) list and store the same values, bounds check apart",
     "C05-T1": "castable pairs are exactly reflexive + {(Bool,Int),(Bool,Float),(Int,Float)}",
     "C05-C1": "_expand adds n rows and n to n_elem; clear keeps (n_elem, elemsize); dense creation is sized by the container",
@@ -29,6 +31,7 @@ def run(ctx):
     o1_bounds(ctx)
     g1_growth(ctx)
     a1_default_alias(ctx)
+    a2_stored_value_fresh(ctx)
     s1_siblings(ctx)
     t1_cast_table(ctx)
     c1_expand_clear(ctx)
@@ -391,3 +394,33 @@ def c1_expand_clear(ctx):
     ok = ok and len(full) == 1 and len(full[0].args) >= 2 and au.src(full[0].args[1]) == "self.default_value"
     ctx.check(ok, "C05-C1", site, "sparse as_array is not `full(default)` overwritten by every stored item at its index",
               "array export of the sparse storage must give the same answers as reading entry by entry")
+
+
+# ---------------------------------------------------------------------------- A2
+def a2_stored_value_fresh(ctx):
+    from ..rules import alias
+    fr = alias.Freshness(ctx.repo)
+    fn = ctx.repo.func(MA, "Attribute.__setitem__")
+    site = ctx.site(MA, fn)
+    key, val = au.params(fn, skip_self=True)[:2]
+    b = sym.Bindings(fn)
+    n = 0
+    for st in au.stmts(fn.body):
+        if isinstance(st, ast.Assign) and isinstance(st.targets[0], ast.Subscript) and au.is_self_attr(st.targets[0].value, "_data"):
+            # only the vector branch can hold a mutable object (scalars are immutable python values)
+            vector_branch = any(pol and "elemsize" in au.src(t) for t, pol in au.guards(st, stop=fn))
+            if not vector_branch:
+                continue
+            n += 1
+            v = b.resolve(st.value, at=st, keep=(val,))
+            shares = fr.aliases(v) & {val}
+            # IfExp / nested: any branch aliasing the parameter
+            for sub in au.walk(v):
+                if isinstance(sub, ast.IfExp):
+                    shares |= (fr.aliases(sub.body) | fr.aliases(sub.orelse)) & {val}
+            ctx.check(not shares and fr.is_fresh(v), "C05-A2", ctx.site(MA, fn, st),
+                      f"sparse __setitem__ stores `{au.src(st.value)}`, which may share storage with the value passed by the caller",
+                      "Vec(x) / np.asarray(x) of an array are views: writing the same array at two indices (or attr[j] = attr[i]) and "
+                      "then updating one entry in place changes the other; the dense storage copies, so sparse and dense disagree",
+                      note="stored vector rebuilt from a list of scalars")
+    ctx.check(n >= 1, "C05-A2", site, "sparse __setitem__ no longer has a vector branch storing into self._data", "")
